@@ -17,8 +17,14 @@ for c in m['checks']:
         for d in re.findall(r"['\"](\w+)['\"]", mm.group(1)) if mm else []:
             if 'DadiVerif.Driver.' + d not in mods:
                 mods.append('DadiVerif.Driver.' + d)
-text = ''.join('import %s\n' % x for x in mods)
+# The root file stays minimal: properties built independently may define equal names in different modules that never
+# import each other; importing them all into one root would clash.  setup builds the targets one by one instead.
+root = 'import DadiVerif.Model.Prelude\n'
 p = os.path.join(L, 'DadiVerif.lean')
-if not os.path.exists(p) or open(p).read() != text:
-    open(p, 'w').write(text)
+if not os.path.exists(p) or open(p).read() != root:
+    open(p, 'w').write(root)
+t = os.path.join(L, 'targets.txt')
+text = '\n'.join(mods) + '\n'
+if not os.path.exists(t) or open(t).read() != text:
+    open(t, 'w').write(text)
 print(len(mods), 'modules')
